@@ -5,4 +5,5 @@ import "verifharness/internal/ingestx"
 func init() {
 	replayers["ingest"] = ingestx.Replay
 	replayers["ingestrec"] = ingestx.RecCase
+	replayers["sorter"] = ingestx.ReplaySorter
 }
